@@ -111,6 +111,9 @@ func (g *c15gen) scalar(pos string, depth int) string {
 	case 12:
 		return g.windowCall(pos, depth-1)
 	case 13:
+		if g.r.Intn(3) == 0 {
+			return g.aggCall(pos, depth-1)
+		}
 		return g.call(pos, depth-1)
 	case 14:
 		return "CASE " + g.scalar(pos+"/case", depth-1) + " WHEN " + g.scalar(pos+"/case", depth-1) + " THEN " + g.scalar(pos+"/case", depth-1) + " END"
@@ -129,6 +132,29 @@ func (g *c15gen) call(pos string, depth int) string {
 	return name + "(" + strings.Join(args, ", ") + ")"
 }
 
+// keys: one to three comma-separated expressions at a position, each optionally followed by one of the suffixes
+func (g *c15gen) keys(pos string, depth int, suffixes []string) string {
+	var ks []string
+	for i := 1 + g.r.Intn(3); i > 0; i-- {
+		k := g.scalar(pos, depth)
+		if len(suffixes) > 0 {
+			k += suffixes[g.r.Intn(len(suffixes))]
+		}
+		ks = append(ks, k)
+	}
+	return strings.Join(ks, ", ")
+}
+
+// aggCall: an aggregate with an ordering inside its parentheses or a WITHIN GROUP clause
+func (g *c15gen) aggCall(pos string, depth int) string {
+	name := g.fresh("fn")
+	g.put(g.rec.funcs, name, pos)
+	if g.r.Bool() {
+		return name + "(" + g.scalar(pos, depth) + ", ',' ORDER BY " + g.keys(pos+"/agg-order", depth, []string{"", " DESC", " ASC"}) + ")"
+	}
+	return name + "(" + g.scalar(pos, depth) + ") WITHIN GROUP (ORDER BY " + g.keys(pos+"/within-group", depth, []string{"", " DESC"}) + ")"
+}
+
 func (g *c15gen) windowCall(pos string, depth int) string {
 	name := g.fresh("fn")
 	g.put(g.rec.funcs, name, pos)
@@ -139,10 +165,10 @@ func (g *c15gen) windowCall(pos string, depth int) string {
 	s += " OVER ("
 	var parts []string
 	if g.r.Bool() {
-		parts = append(parts, "PARTITION BY "+g.scalar("window-partition", depth))
+		parts = append(parts, "PARTITION BY "+g.keys("window-partition", depth, nil))
 	}
 	if g.r.Bool() || len(parts) == 0 {
-		o := "ORDER BY " + g.scalar("window-order", depth)
+		o := "ORDER BY " + g.keys("window-order", depth, []string{"", " DESC", " ASC NULLS LAST"})
 		if g.r.Intn(3) == 0 {
 			switch g.r.Intn(3) {
 			case 0:
@@ -296,14 +322,16 @@ func (g *c15gen) selectCore(depth int, single bool) string {
 		case 0:
 			sql += " GROUP BY ROLLUP(" + g.scalar("group-by", depth) + ")"
 		default:
-			sql += " GROUP BY " + g.scalar("group-by", depth)
+			sql += " GROUP BY " + g.keys("group-by", depth, nil)
 		}
 		if g.r.Bool() {
 			sql += " HAVING " + g.cond("having", depth)
 		}
+	} else if g.r.Intn(12) == 0 {
+		sql += " HAVING " + g.cond("having", depth) // HAVING without GROUP BY
 	}
 	if g.r.Intn(4) == 0 {
-		sql += " ORDER BY " + g.scalar("order-by", depth) + []string{"", " DESC", " ASC NULLS LAST"}[g.r.Intn(3)]
+		sql += " ORDER BY " + g.keys("order-by", depth, []string{"", " DESC", " ASC NULLS LAST"})
 	}
 	if g.r.Intn(6) == 0 {
 		sql += " LIMIT " + fmt.Sprint(1+g.r.Intn(20))
